@@ -31,6 +31,55 @@ def waker_vec_fields(F):
     return sig, out
 
 
+def bound_fields(F, wv):
+    """usize fields of the tracker that hold the ring bound: set once in a constructor from ArrayQueue::capacity (or len), never
+    stored to by any method.  Returns {field: 'capacity' | 'len-early'}"""
+    out = {}
+    for adt_def, _ in wv:
+        adt = F.adts.get(adt_def)
+        if not adt:
+            continue
+        uf = [f["name"] for v in adt["variants"] for f in v["fields"] if f["ty"] == "usize"]
+        for fn_ in uf:
+            stored = False
+            init = []         # (body, operand)
+            for b in F.all_bodies(BG):
+                for i in b.live_blocks():
+                    for s_ in b.stmts(i):
+                        if s_["k"] != "assign":
+                            continue
+                        if any(e[0] == "f" and e[2] == fn_ and len(e) > 3 and e[3] == adt_def for e in s_["lhs"].get("p", [])):
+                            stored = True
+                        if s_["rv"]["k"] == "agg" and s_["rv"].get("adt") == adt_def and fn_ in (s_["rv"].get("fields") or []):
+                            init.append((b, s_["rv"]["ops"][s_["rv"]["fields"].index(fn_)]))
+            if stored or not init:
+                continue
+            kind = None
+            for b, op in init:
+                pr = Prov(b)
+                for x in pr.operand(op):
+                    if x[0] == "call":
+                        c = _cs_at(b, x[1])
+                        if c.is_in("crossbeam_queue", "ArrayQueue::capacity"):
+                            kind = "capacity"
+                        elif c.is_in("crossbeam_queue", "ArrayQueue::len"):
+                            kind = "len-early"
+                    elif x[0] == "arg" and not x[2]:
+                        # constructor parameter: look at the callers
+                        for cs in F.callers_of(b.path, crates=[BG]):
+                            if x[1] - 1 < len(cs.args):
+                                for y in Prov(cs.body).operand(cs.args[x[1] - 1]):
+                                    if y[0] == "call":
+                                        c = _cs_at(cs.body, y[1])
+                                        if c.is_in("crossbeam_queue", "ArrayQueue::capacity"):
+                                            kind = kind or "capacity"
+                                        elif c.is_in("crossbeam_queue", "ArrayQueue::len"):
+                                            kind = "len-early"
+            if kind:
+                out[fn_] = kind
+    return out
+
+
 def run(ctx):
     F = ctx.facts("dbg")
     sig, wv = waker_vec_fields(F)
@@ -181,6 +230,7 @@ def run(ctx):
                         kinds.add("capacity")
                     elif any(x[0] == "call" and ring_len(_cs_at(cs.body, x[1])) for x in o):
                         kinds.add("len-early")
+            kinds |= set(bound_fields(F, wv).values())       # the bound kept in a field of the tracker, set once at construction
             ctx.check(bool(kinds & {"capacity", "len-lazy"}) and "len-early" not in kinds, "R04.3", fnkey(cs.body) + "#bound-derives-from-ring", loc(cs.body, cs.bb),
                       ("the entries-before-wake bound is the queue LENGTH sampled before the tracker collects the new flush requests: entries appended "
                        "in between are not counted, so a flush can complete before they are written (use the constant capacity, or read the length "
@@ -310,7 +360,9 @@ def run(ctx):
                     stores.setdefault(fs[0], []).append((i, {("op", st["rv"]["k"])}))
                 else:
                     stores.setdefault(fs[0], []).append((i, pr.operand(st["rv"]["op"])))
-        counters = [f for f, ss in stores.items() if any(any(x[0] == "call" and x[1] in bound_calls for x in o) for _, o in ss)]
+        bflds = set(bound_fields(F, wv))
+        is_bound = lambda x: (x[0] == "call" and x[1] in bound_calls) or (x[0] == "arg" and x[1] == 1 and len(x[2]) == 1 and x[2][0] in bflds)
+        counters = [f for f, ss in stores.items() if any(any(is_bound(x) for x in o) for _, o in ss)]
         ctx.check(len(counters) == 1, "R04.4", key + "#counter-slot", loc(tb),
                   "could not identify the entries-before-wake counter (a tracker field storing the result of the bound closure): %s" % counters,
                   "counter field: %s; bound calls bb%s" % (counters, sorted(bound_calls)))
@@ -330,7 +382,7 @@ def run(ctx):
         for bb_, o in stores[cf]:
             n44 += 1
             consts = [x for x in o if x[0] == "const"]
-            from_bound = [x for x in o if x[0] == "call" and x[1] in bound_calls]
+            from_bound = [x for x in o if is_bound(x)]
             if consts:
                 ok = tb.must_pass(releases, start=bb_) if releases else False
                 ctx.check(ok and not from_bound, "R04.4", key + "#constant-counter-only-with-release@%s" % ("+".join(sorted(str(x[1][1]) for x in consts))), loc(tb, bb_),
@@ -338,7 +390,7 @@ def run(ctx):
                           "that were just collected would be woken by the next call although the entries appended before them are still queued",
                           "constant store is followed by the release of the wakers on every path")
             elif from_bound:
-                ctx.check(all(x[0] in ("call", "via") and (x[0] == "via" or x[1] in bound_calls) for x in o), "R04.4", key + "#bound-store-pure", loc(tb, bb_),
+                ctx.check(all(x[0] == "via" or is_bound(x) for x in o), "R04.4", key + "#bound-store-pure", loc(tb, bb_),
                           "the value stored as entries-before-wake mixes the ring bound with other sources: %s" % sorted(map(str, o)),
                           "stored value is exactly the bound closure's result")
             else:
@@ -354,7 +406,7 @@ def run(ctx):
                           "the counter update is not `counter.saturating_sub(<entry-count parameter>)`: origins %s" % sorted(map(str, o))[:5],
                           "counter decremented by the entry-count parameter, saturating")
         # after new signals were collected the counter is armed with the bound on every path to the exit
-        bound_stores = {bb_ for bb_, o in stores[cf] if o and all(x[0] == "via" or (x[0] == "call" and x[1] in bound_calls) for x in o) and any(x[0] == "call" for x in o)}
+        bound_stores = {bb_ for bb_, o in stores[cf] if o and all(x[0] == "via" or is_bound(x) for x in o) and any(is_bound(x) for x in o)}
         empties = [x for x in tb.calls() if x.is_in("alloc::vec", "Vec::is_empty") and x.args and
                    any(y[0] == "arg" and y[1] == 1 and y[2] and y[2][-1] in wvf for y in pr.operand(x.args[0]))]
         for p in pushes:
